@@ -23,6 +23,11 @@ impl<'a> Engine<'a> {
         self.graphics.reset();
         self.graphics.is_pedantic = is_pedantic;
         self.loop_budget.reset();
+        // Every program starts with an empty value stack. In particular,
+        // the control value program does not see values left behind by
+        // the font program.
+        // See <https://gitlab.freedesktop.org/freetype/freetype/-/blob/57617782464411201ce7bbc93b086c1b4d7d84a5/src/truetype/ttobjs.c#L1007>
+        self.value_stack.clear();
         // Program specific setup.
         match program {
             Program::Font => {
@@ -239,5 +244,27 @@ impl<'a> Engine<'a> {
             }
         }
         Ok(())
+    }
+}
+
+#[cfg(test)]
+mod tests {
+    use super::{super::MockEngine, Program};
+
+    /// FreeType sets `exec->top = 0` before running the font program,
+    /// the control value program and each glyph program.
+    #[test]
+    fn reset_clears_value_stack() {
+        let mut mock = MockEngine::new();
+        let mut engine = mock.engine();
+        // Font program: PUSHB[1] 7 9 leaves two values behind
+        engine.program.bytecode[0] = &[0xB1, 7, 9];
+        engine.run_program(Program::Font, false).unwrap();
+        assert_eq!(engine.value_stack.values(), &[7, 9]);
+        for program in [Program::ControlValue, Program::Glyph, Program::Font] {
+            engine.value_stack.push(1).unwrap();
+            engine.reset(program, false);
+            assert_eq!(engine.value_stack.len(), 0);
+        }
     }
 }
